@@ -16,7 +16,12 @@ Top-level clauses (from the property statement), enforced at run time on the rea
                        (classes element-lost-or-duplicated / reordered; the other classes are unparseable,
                        value-differs, simple-value [a leaf printed on its own already fails], raises,
                        budget-overrun)
-  lines_equal_whole    the lines produced by iterating the result, joined with '\\n', are the whole text
+  lines_equal_whole    the lines produced by iterating the result, joined with '\\n', are the whole text - under
+                       every way of consuming the iterator: each line converted to text as soon as it is yielded
+                       (class differs), all lines collected first (list(result)) and converted only after the
+                       whole iteration has finished, and two iterators of one result advanced alternately, their
+                       lines converted at the end (class held-lines-differ: a line that was handed out must not
+                       change when the generator advances)
 
 The oracle is the two stdlib parsers + the input value; the printer is never used to compute an
 expectation.  `ref_*` below is a reference *length* model of the one-line rendering used only to steer
@@ -78,13 +83,42 @@ def _quiet():
 
 def observe(v, mode):
     """the three observations of one printing: whole text, lines, str() of the result"""
+    return observe_all(v, mode)[:3]
+
+
+def _interleave(it_a, it_b):
+    """advance two iterators alternately, keeping every yielded item; -> (items of a, items of b)"""
+    got_a, got_b = [], []
+    live = [(it_a, got_a), (it_b, got_b)]
+    while live:
+        for pair in list(live):
+            try:
+                pair[1].append(next(pair[0]))
+            except StopIteration:
+                live.remove(pair)
+    return got_a, got_b
+
+
+def observe_all(v, mode):
+    """whole text, lines converted at the moment they are yielded, str() of the result, and `held`:
+    {discipline: line texts} for the disciplines that keep the yielded line objects and convert them to text
+    only after the iteration has finished"""
     with _quiet(), _budget(BUDGET_S):
         printer = PrettyPrinter(fmt_json=(mode == 'json'))
         res = printer(v, no_color=True)
         text = res.plain_text()
         lines = [ln.plain_text() for ln in res]
         colored = str(res)
-    return text, lines, colored
+        held = {}
+        # a fresh result, never asked for its whole text: collect, convert later
+        kept = list(printer(v, no_color=True))
+        held['list(result), lines converted afterwards'] = [ln.plain_text() for ln in kept]
+        held['str: list(result), str(line) afterwards vs str(result)'] = [str(ln) for ln in kept]
+        # two iterators of the result that already produced the whole text, advanced alternately
+        kept_a, kept_b = _interleave(iter(res), iter(res))
+        held['first of two alternately advanced iterators'] = [ln.plain_text() for ln in kept_a]
+        held['second of two alternately advanced iterators'] = [ln.plain_text() for ln in kept_b]
+    return text, lines, colored, held
 
 
 # --------------------------------------------------------------------------- oracle
@@ -243,7 +277,7 @@ def check_value(v, mode):
     ob_rt = f"C11.{mode}_roundtrip"
     what = f"{mode} mode, value {short(repr(v))}"
     try:
-        text, lines, colored = observe(v, mode)
+        text, lines, colored, held = observe_all(v, mode)
     except _Budget:
         return [(ob_rt, f"{ob_rt}:budget-overrun",
                  f"printing does not finish within {BUDGET_S} s ({what})")], diags, None
@@ -266,6 +300,30 @@ def check_value(v, mode):
         fails.append(('C11.lines_equal_whole', 'C11.lines_equal_whole:differs',
                       f"lines joined with newline differ from the whole text: {len(lines)} lines, "
                       f"joined {short(repr(chr(10).join(lines)), 120)} vs whole {short(repr(text), 120)} ({what})"))
+    # ... and the lines that were kept while the generator went on, converted after the iteration finished
+    for how, hl in held.items():
+        whole = text
+        if how.startswith('str:'):
+            # str() of the kept lines against str() of the whole result (str vs plain_text is supporting, above)
+            if not isinstance(colored, str):
+                continue
+            whole = colored
+        if not all(isinstance(ln, str) for ln in hl):
+            fails.append(('C11.lines_equal_whole', 'C11.lines_equal_whole:held-lines-differ',
+                          f"{how}: non-text items ({what})"))
+            break
+        if '\n'.join(hl) != whole or any('\n' in ln for ln in hl):
+            bad = [i for i, (a, b) in enumerate(zip(hl, whole.split('\n'))) if a != b]
+            fails.append(('C11.lines_equal_whole', 'C11.lines_equal_whole:held-lines-differ',
+                          f"{how}: the kept lines joined with newline differ from the whole text: {len(hl)} lines "
+                          f"(whole text: {whole.count(chr(10)) + 1}), first differing line "
+                          f"{bad[0] if bad else min(len(hl), whole.count(chr(10)) + 1)}: "
+                          f"joined {short(repr(chr(10).join(hl)), 120)} vs whole {short(repr(whole), 120)} ({what})"))
+            break
+    if isinstance(lines, list) and all(isinstance(ln, str) for ln in lines):
+        info['held_multiline'] = len(lines) >= 2 and all(len(hl) >= 2 for hl in held.values())
+        # a line that is nothing but an opening bracket, handed out before later lines are produced
+        info['held_bracket_line'] = info['held_multiline'] and any(ln.strip() in ('{', '[') for ln in lines[:-1])
     if colored != text:
         diags.append(f"C11.no_color.str_equals_plain_text: str(result) differs from plain_text() with "
                      f"no_color=True ({what})")
@@ -634,6 +692,11 @@ def _eval(spec, mode, res, keep_info=False):
     for d in diags:
         if d not in res['diags'] and len(res['diags']) < 20:
             res['diags'].append(d)
+    if info is not None:
+        if info.get('held_multiline'):
+            res['events'][EV_HELD] = res['events'].get(EV_HELD, 0) + 1
+        if info.get('held_bracket_line'):
+            res['events'][EV_HELD_BRACKET] = res['events'].get(EV_HELD_BRACKET, 0) + 1
     return info
 
 
@@ -776,10 +839,14 @@ def make_tasks(tier, seed):
     return tasks
 
 
+EV_HELD = 'held-lines: multi-line output, lines kept and converted after the iteration finished'
+EV_HELD_BRACKET = 'held-lines: a kept line is an opening bracket alone'
+
 REQUIRED_REACH = (['one-line<->multi-line flip', 'per-line wrap', 'wrap over >= 3 lines']
                   + [f"flip:{k}@off{o}" for k in ('list', 'dict') for o in OFFSETS]
                   + [f"wrap:list@off{o}" for o in OFFSETS]
-                  + ['multi-line:random', 'multi-line:elephant', 'multi-line:multi'])
+                  + ['multi-line:random', 'multi-line:elephant', 'multi-line:multi']
+                  + [EV_HELD, EV_HELD_BRACKET])
 
 
 def run(b):
